@@ -1,10 +1,11 @@
 """C19 — dropping a simulation."""
 import vlib, taskgen, simgen, simcase, simcheck, oracles
-from props import taskprops, simprops
+from props import taskprops, simprops, slotprops
 
 HARNESS = ("atomh", "simh")
 TRUSTED = ["PARTIAL: task level only in Coq (C13's invariant: cancel racing with wakers/runner releases the future and the memory exactly once, no leak). The executor-level drop (ExecDrop of the design: every model, queued message and pending future released once, nothing runs afterwards) is NOT modelled; it is observed: the harness drops the Simulation at the end of every bench (idle, deadlocked, failed, with pending scheduler actions, blocked senders, pending queries, sub-models) and counts model drops and post-drop handler entries",
            "a nested simulation built, run and dropped inside a handler is skipped by the model (it must have no effect on the enclosing simulation): only the harness executes it", "joining of worker threads is observed through the drop returning (watchdog), undelivered messages are plain integers (no drop counters)"]
+TRUSTED = TRUSTED + slotprops.TRUSTED
 ASSUMPTIONS = []
 
 
@@ -34,6 +35,7 @@ def o_drop(case, line):
 
 def tie(rep, tier, rng, model_ok):
     q = tier == "quick"
+    slotprops.run(rep, tier, rng)
     cases = taskgen.gen(rng, 2500 if q else 50000)
     cases = [c for c in cases if "cancel" in c or "dropr" in c or "droptok" in c]
     taskprops.run_tasks(rep, "task-cancel-schedules", cases, model_ok=model_ok)
